@@ -1,2 +1,2 @@
-/- C05 — theorems are being added. -/
-import DsdVerif.Model.World
+/- C05 — object lifetime on the reference-graph model: theorems are in Props/C05World.lean. -/
+import DsdVerif.Props.C05World
